@@ -117,7 +117,8 @@ Definition check (s : sx) : Z :=
       | Some evs, Some outs =>
           let m := sem_run limit evs in
           let n200 := count_z 1 outs in
-          both (spec_conc limit (n200 + count_z 2 outs) n200 n503 peak gathers dones && (count_z 2 outs =? n503))
+          both (spec_conc limit (n200 + count_z 2 outs) n200 n503 peak gathers dones && (count_z 2 outs =? n503) &&
+                spec_sched limit [] evs outs)
                (zs_eqb (sem_outcomes limit sem0 evs) outs && (m_peak m =? peak) && (m_gathers m =? gathers) &&
                 (m_dones m =? dones) && (m_503 m =? n503))
       | _, _ => code_decode_error
